@@ -13,6 +13,12 @@ PID = "C01"
 PRELUDE_SUBSET = ("int_lt_ss", "int_le_sc3", "int_eq_ss", "int_abs", "int_mul_ss", "int_truediv_ss", "int_to_bits_default", "int_check_positive", "sel_ite_cmp", "arr_read_s2", "int_rshift_sc3")
 
 
+def is_very_heavy(e):
+    """a secret-exponent power followed by further gadgets on the same operands: run where it matters (C05 value, C04/C01
+    plain) and in the thorough tier"""
+    return e.name == "int_pow_ss_then_reuse_base"
+
+
 def is_heavy(e):
     """secret exponent / shift count (secret on the right-hand side): 2^n paths and chains of products"""
     return any(t in e.tags for t in ("pow", "lshift", "rshift")) and ("ss" in e.tags or "cs" in e.tags)
@@ -30,6 +36,8 @@ def jobs(tier):
                 continue            # secret exponents/shift counts: 2^n paths, stated bound n <= 8
             for g in (None, "sym"):
                 if g == "sym" and heavy and n > 4:
+                    continue
+                if g == "sym" and is_very_heavy(e) and tier == "quick":
                     continue
                 if g == "sym" and n > 4 and "arr" in e.tags:
                     continue
